@@ -155,7 +155,7 @@ def worker_main(pid, tier, seed, shard, nshards, outfile, indices=None):
 
 def child_env():
     env = dict(os.environ)
-    pp = [str(ROOT), str(ROOT / '.deps'), str(REPO / 'lint_rules')]
+    pp = [str(ROOT), str(ROOT / '.deps'), str(REPO), str(REPO / 'lint_rules')]
     if env.get('PYTHONPATH'):
         pp.append(env['PYTHONPATH'])
     env['PYTHONPATH'] = os.pathsep.join(pp)
